@@ -369,6 +369,21 @@ def r6_fields(ctx, F):
                       "setattr calls %s under %s; the times are set exactly when ATIME or MTIME is requested" % (c.name, [t for (t, l) in g if "TIME" in t]), loc=c.loc())
     need = {(X, f, k) for X in "AM" for (f, k) in (("tv_nsec", "now"), ("tv_sec", "explicit"), ("tv_nsec", "explicit"))}
     ctx.check(rule, "utimens/all-six-stores", need <= seen, "setattr no longer fills %s" % sorted(need - seen), loc=b.loc())
+    # ---- the Entry built by do_lookup: each validity comes from its own configured timeout (directory variants for directories)
+    lb = F.method(PFS, "do_lookup")
+    lv = vf.VF(lb, inline_depth=0)
+    ents = []
+    for bb in sorted(lb.reachable()):
+        for i, s in enumerate(lb.stmts(bb)):
+            if s[0] == "=" and s[2][0] == "agg" and isinstance(s[2][1], dict) and s[2][1].get("adt", "").endswith("filesystem::Entry"):
+                ents.append(dict(lv.rvalue(s[2], bb, i)[3]))
+    if ctx.check(rule, "entry/literal", len(ents) == 1, "do_lookup builds %d Entry values" % len(ents), loc=lb.loc()):
+        e = ents[0]
+        for fld, plain, dirv in (("attr_timeout", "self.cfg.attr_timeout", "self.dir_attr_timeout"), ("entry_timeout", "self.cfg.entry_timeout", "self.dir_entry_timeout")):
+            t = vf.render(e[fld], lb, short=True, vfx=lv)
+            ok = re.fullmatch(r"phi\{!util::is_dir\((.*)\) => %s \| util::is_dir\((.*)\) => %s\}" % (re.escape(plain), re.escape(dirv)), t) is not None
+            ctx.check(rule, "entry/" + fld, ok, "do_lookup's Entry.%s is `%s`; required %s for files and %s for directories" % (fld, t[-120:], plain, dirv), loc=lb.loc())
+        ctx.check(rule, "entry/generation", vf.render(e["generation"], lb, short=True) == "0", "do_lookup's Entry.generation is not 0", loc=lb.loc())
     # ---- statx -> stat64: every field comes from its namesake
     cands = [x for x in F.fns.values() if x.name == "stat64" and "statx" in x.key and x.kind == "assoc"]
     if len(cands) != 1:
